@@ -1151,9 +1151,19 @@ func (c *Conn) readAll(r io.Reader, size int) (*[]byte, error) {
 	pbuf := c.Engine.BodyAllocator.Malloc(size)
 	*pbuf = (*pbuf)[0:0]
 	for {
-		n, err := r.Read((*pbuf)[len(*pbuf):cap(*pbuf)])
+		// never read more than one byte beyond the limit, whatever capacity
+		// the allocator returned.
+		end := cap(*pbuf)
+		if c.MessageLengthLimit > 0 && end > c.MessageLengthLimit+1 {
+			end = c.MessageLengthLimit + 1
+		}
+		n, err := r.Read((*pbuf)[len(*pbuf):end])
 		if n > 0 {
 			*pbuf = (*pbuf)[:len(*pbuf)+n]
+		}
+		if c.isMessageTooLarge(len(*pbuf)) {
+			c.Engine.BodyAllocator.Free(pbuf)
+			return nil, ErrMessageTooLarge
 		}
 		if err != nil {
 			if err == io.EOF {
@@ -1163,17 +1173,17 @@ func (c *Conn) readAll(r io.Reader, size int) (*[]byte, error) {
 		}
 		if len(*pbuf) == cap(*pbuf) {
 			l := len(*pbuf)
-			// can not extend more bytes.
-			if c.isMessageTooLarge(l + 1) {
-				return nil, ErrMessageTooLarge
-			}
 			al := l
 			if al > maxAppendSize {
 				al = maxAppendSize
 			}
-			// extend to the limit size at most.
-			if (c.MessageLengthLimit > 0) && (l+al > c.MessageLengthLimit) {
-				al = c.MessageLengthLimit - l
+			if al == 0 {
+				al = 1
+			}
+			// extend to one byte beyond the limit at most, that byte tells
+			// a message of exactly the limit from a too large one.
+			if (c.MessageLengthLimit > 0) && (l+al > c.MessageLengthLimit+1) {
+				al = c.MessageLengthLimit + 1 - l
 			}
 			pbuf = c.Engine.BodyAllocator.Append(pbuf, make([]byte, al)...)
 			*pbuf = (*pbuf)[:l]
